@@ -83,10 +83,27 @@ type c15Case struct {
 	// record and is followed by a WriteTo payload, the reader calls ReadFrom after its first short Read
 	// and collects the rest of the first payload afterwards (mixed use of the two reading calls)
 	RBuf int `json:"rbuf,omitempty"`
+	// PrePMTU != 0: the configurations were first used for a connection with this path MTU; the
+	// measured connection runs on clones of them whose PMTU was then set to CPMTU / SPMTU
+	PrePMTU int `json:"prepmtu,omitempty"`
 }
 
 func c15Run(c c15Case) (sig, msg string, known string) {
 	ccfg, scfg := vfBaseConfigs(c.Suite, false)
+	if c.PrePMTU != 0 {
+		ccfg.PMTU, scfg.PMTU = c.PrePMTU, c.PrePMTU
+		if c.PrePMTU < 0 {
+			ccfg.PMTU, scfg.PMTU = 0, 0
+		}
+		r0 := vfRunPair(ccfg, scfg, vfPairOpt{InPlace: true,
+			CliAct: func(cn *Conn) error { return vfSendAll(cn, []byte("first use")) },
+			SrvAct: func(cn *Conn) error { _, err := vfRecvN(cn, 9); return err },
+		})
+		if r0.CErr != nil || r0.SErr != nil {
+			return "honest-failed", fmt.Sprintf("first use of the configurations (PMTU %d) failed: %v / %v", c.PrePMTU, r0.CErr, r0.SErr), ""
+		}
+		ccfg, scfg = ccfg.Clone(), scfg.Clone()
+	}
 	ccfg.PMTU, scfg.PMTU = c.CPMTU, c.SPMTU
 	cc := vfNewCapCache(4)
 	ccfg.SessionCache, scfg.SessionCache = cc, vfNewCapCache(4)
@@ -196,7 +213,7 @@ func c15Run(c c15Case) (sig, msg string, known string) {
 		}
 		return nil
 	}
-	opt := vfPairOpt{}
+	opt := vfPairOpt{InPlace: c.PrePMTU != 0}
 	if c.LoseFlight {
 		opt.Faults = []vfFault{{Kind: "drop", Dir: 1, Nth: 1}} // the server's first flight: retransmitted on the client's retransmitted hello
 	}
@@ -220,6 +237,10 @@ func c15Run(c c15Case) (sig, msg string, known string) {
 	r.Sim.mu.Lock()
 	sent := append([]vfSentRec(nil), r.Sim.sent...)
 	r.Sim.mu.Unlock()
+	// A listed known finding (K3: handshake flights ignore the path MTU) must not hide what lies behind
+	// it: while it is listed, an oversized handshake datagram is remembered and reported only if nothing
+	// else is wrong with the case, so that the application-data clauses are still examined.
+	var k3sig, k3msg string
 	for i, s := range sent {
 		if len(s.Data) > pm[s.From] {
 			kind := "handshake"
@@ -231,8 +252,22 @@ func c15Run(c c15Case) (sig, msg string, known string) {
 					k = "F9"
 				}
 			}
-			return "datagram-exceeds-pmtu:" + kind, fmt.Sprintf("%s datagram of %d bytes from side %d whose path MTU is %d: %s", kind, len(s.Data), s.From, pm[s.From], vfSummarize(s.Data)), k
+			vsig, vmsg := "datagram-exceeds-pmtu:"+kind, fmt.Sprintf("%s datagram of %d bytes from side %d whose path MTU is %d: %s", kind, len(s.Data), s.From, pm[s.From], vfSummarize(s.Data))
+			if k == "K3" && vfKnown("K3") {
+				if k3sig == "" {
+					k3sig, k3msg = vsig, vmsg
+				}
+				continue
+			}
+			return vsig, vmsg, k
 		}
+	}
+	if k3sig != "" {
+		defer func() {
+			if sig == "" {
+				sig, msg, known = k3sig, k3msg, "K3"
+			}
+		}()
 	}
 	if libMax != max {
 		k := ""
@@ -400,7 +435,7 @@ func TestVF_C15(t *testing.T) {
 			return rapid.OneOf(rapid.IntRange(min, 300), rapid.IntRange(min, 2000), rapid.SampledFrom([]int{0, 1400, 16397, 16500, 30000})).Draw(t, l)
 		}
 		c := c15Case{Suite: suite, CPMTU: pm("cpmtu"), SPMTU: pm("spmtu"), Dir: rapid.IntRange(0, 1).Draw(t, "dir"), LoseFlight: rapid.IntRange(0, 3).Draw(t, "lose") == 0,
-			RBuf: rapid.SampledFrom([]int{0, 0, 1, 7, 100, 700}).Draw(t, "rbuf")}
+			RBuf: rapid.SampledFrom([]int{0, 0, 1, 7, 100, 700}).Draw(t, "rbuf"), PrePMTU: rapid.SampledFrom([]int{0, 0, 0, -1, 1400, 600, 3000}).Draw(t, "prepmtu")}
 		sp := c.CPMTU
 		if c.Dir == 1 {
 			sp = c.SPMTU
